@@ -1,0 +1,27 @@
+//go:build verif
+
+// Verification-only exports (build tag `verif`). Add-only: nothing in this file is
+// compiled without the tag, and no existing line of the package is changed by it.
+
+package tls
+
+import (
+	"github.com/refraction-networking/utls/internal/quicvarint"
+	"github.com/refraction-networking/utls/internal/quicvarint/protocol"
+)
+
+// VerifVarintAppend exposes internal/quicvarint.Append.
+func VerifVarintAppend(b []byte, i uint64) []byte { return quicvarint.Append(b, i) }
+
+// VerifVarintAppendWithLen exposes internal/quicvarint.AppendWithLen.
+func VerifVarintAppendWithLen(b []byte, i uint64, length int64) []byte {
+	return quicvarint.AppendWithLen(b, i, protocol.ByteCount(length))
+}
+
+// VerifVarintLen exposes internal/quicvarint.Len.
+func VerifVarintLen(i uint64) int64 { return int64(quicvarint.Len(i)) }
+
+// VerifVarintRead exposes internal/quicvarint.Read.
+func VerifVarintRead(r interface{ ReadByte() (byte, error) }) (uint64, error) {
+	return quicvarint.Read(r)
+}
